@@ -79,7 +79,7 @@ def run(rep, tier):
         "For each ParserExpr variant present in the analysed configuration (post-cfg ADT) the rules check the "
         "corresponding arm of the validator's recursive functions; unary wrappers must recurse on every path, "
         "Choice into both alternatives, Seq into lhs on every path and into rhs on some path.")
-    rep.configs = ["default", "extras"]
+    rep.configs = rep.cfgs(["default", "extras"])
     for cfg in rep.configs:
         f = facts.facts(cfg)
         meta = f.crate("pest_meta", want_feature="grammar-extras" if cfg == "extras" else None)
